@@ -1,6 +1,16 @@
-(* C16 — property theorems (bootstrap stage; see DESIGN.md section 6). *)
-From Verif Require Import WriterSM.
-Definition C16_closed_is_absorbing := @closed_is_absorbing.
-Print Assumptions C16_closed_is_absorbing.
-Definition C16_close_ok_closes := @close_ok_closes.
-Print Assumptions C16_close_ok_closes.
+(* C16 — property theorems.  Model: WModel/{LZ77,Codes,Encode,Compressor,WriterSM}.v — the pure-Go writer (acceleration level 0), compared byte for byte with the implementation on every run; the assembly levels are tied to it by the run-time contract checks (DESIGN.md 4.3).  Panics are run-time observations.
+   Only statements, each closed by `exact`, followed by Print Assumptions. *)
+From Verif Require Import FinalSpec WriterTheorems WriterStateProofs TraceContent.
+Open Scope N_scope.
+
+(* every finite sequence of Write, Flush, Close, Reset on a healthy destination runs to the end and
+   each call returns an error exactly when compress/flate's Writer (std_run: open/closed) does *)
+Theorem C16_call_sequences : call_sequences_statement.
+Proof. exact WriterStateProofs.call_sequences. Qed.
+Print Assumptions C16_call_sequences.
+
+(* after a successful Close the writer state, destination included, never changes until Reset *)
+Theorem C16_closed_emits_nothing : closed_emits_nothing_statement.
+Proof. exact WriterStateProofs.closed_emits_nothing. Qed.
+Print Assumptions C16_closed_emits_nothing.
+(* the bytes up to the first successful Close form a complete stream of the data: C01 *)
